@@ -623,6 +623,36 @@ def run(ctx) -> None:
                      "argv_config": argv_for(d0[0], v, "config"), "pyproject": pyproject_for(v, "config"), "differing": only, "required": "identical reports", "how": how},
                 )
 
+    # ---- (b2) both spellings at once: the command line's target wins over the config file's (the target the user typed is
+    # the one the replacements must respect)
+    with core.scratch("rv-c15both-") as bd:
+        names_b = sorted(SYNTHETIC)
+        jobs_b = []
+        for flag_v, cfg_v in (((3, 8), (3, 12)), ((3, 12), (3, 8)), ((3, 7), (3, 13)), ((3, 9), (3, 10))):
+            for tag, cfg in (("both", cfg_v), ("flag-only", None)):
+                sub = bd / f"{tag}-{vstr(flag_v)}-{vstr(cfg_v)}"
+                sub.mkdir()
+                for n in names_b:
+                    (sub / n).write_text(SYNTHETIC[n])
+                (sub / "pyproject.toml").write_text(f'[tool.refurb]\npython_version = "{vstr(cfg)}"\n' if cfg else "")
+                jobs_b.append((flag_v, cfg_v, tag, sub))
+        with ThreadPoolExecutor(8) as ex:
+            outs_b = list(ex.map(lambda j: core.refurb_cli([*names_b, "--enable-all", "--quiet", "--python-version", vstr(j[0])], cwd=j[3], timeout=600), jobs_b))
+        by = {(j[0], j[1], j[2]): o for j, o in zip(jobs_b, outs_b)}
+        for flag_v, cfg_v in {(j[0], j[1]) for j in jobs_b}:
+            both, alone_ = by[(flag_v, cfg_v, "both")], by[(flag_v, cfg_v, "flag-only")]
+            res.case(("flag-over-config", flag_v, cfg_v), nontrivial=True)
+            res.bump("cli_runs", 2)
+            if both[:2] != alone_[:2]:
+                da, db = core.parse_plain(both[1])[0], core.parse_plain(alone_[1])[0]
+                only = [f"{x['file']}:{x['line']} FURB{x['code']}: {x['msg']}" for x in da if x not in db][:3] + [f"(missing) {x['file']}:{x['line']} FURB{x['code']}: {x['msg']}" for x in db if x not in da][:3]
+                res.violate(
+                    f"--python-version {vstr(flag_v)} with python_version = \"{vstr(cfg_v)}\" in the config file does not behave like --python-version {vstr(flag_v)} alone: {only[:2]}",
+                    {"kind": "flag-does-not-override-config", "flag": vstr(flag_v), "config": vstr(cfg_v)},
+                    {"files": {n: SYNTHETIC[n] for n in names_b}, "pyproject": f'[tool.refurb]\npython_version = "{vstr(cfg_v)}"\n', "argv": [*names_b, "--enable-all", "--quiet", "--python-version", vstr(flag_v)],
+                     "differing": only, "required": "the report of the same command with an empty pyproject.toml", "how": how},
+                )
+
     # ---- oracle 2: no replacement needs more than the target (every diagnostic of every check on every file)
     unlisted: dict[str, Any] = {}
     found: dict[tuple[str, str, tuple[int, int]], tuple[int, str, list[Any]]] = {}
